@@ -236,6 +236,12 @@ def run(pid, tier, replay=None):
                 held = []
                 for k in range(steps):
                     act = rng.random()
+                    if held and rng.random() < 0.15:          # an earlier transaction is submitted again (a lagging peer re-broadcasts it)
+                        openp = [p for p in run_.peers if run_.node.is_open(p)]
+                        if openp:
+                            run_.deliver_tx(rng.choice(openp), rng.choice(held), label="resubmitted")
+                            lab.append(["tx", "resubmitted"])
+                        continue
                     if act < 0.55 or pid == "C09" and act < 0.8:
                         res, m = rt.step()
                         lab.append(["block", m, res])
@@ -265,6 +271,7 @@ def run(pid, tier, replay=None):
                         if openp:
                             run_.deliver_tx(rng.choice(openp), ctx, label=mname or "valid")
                             lab.append(["tx", mname or "valid"])
+                            held.append(ctx)
                             if rng.random() < 0.2 and [p for p in run_.peers if run_.node.is_open(p)]:
                                 run_.deliver_tx(rng.choice([p for p in run_.peers if run_.node.is_open(p)]), ctx, label="dup")
                 if run_.events:
